@@ -11,8 +11,11 @@
 
 #include "common.hpp"
 
+// -DVF_NO_EXTRAS builds the driver WITHOUT AMC_NONSTD_FEATURES (C16): the non-standard operations answer skip:noext
+#ifndef VF_NO_EXTRAS
 #ifndef AMC_NONSTD_FEATURES
 #define AMC_NONSTD_FEATURES
+#endif
 #endif
 #define private public
 #define protected public
@@ -257,7 +260,7 @@ struct Driver {
       tmp.reset(new T(val));
       ++tempsAlive;
     };
-    Ev ev0;
+    Ev ev0 = evNow();
     auto arm = [&]() {
       ev0 = evNow();
       G().throwingEvents = 0;
@@ -505,6 +508,11 @@ struct Driver {
         v(a).pop_back();
         r.pop_back();
       } else if (op == "pop_back_val") {
+#ifdef VF_NO_EXTRAS
+        skipped = true;
+        res = "skip:noext";
+        goto done;
+#else
         NEED_ALIVE(a);
         NEED(sz > 0);
         insertPoint = sz - 1;
@@ -517,6 +525,7 @@ struct Driver {
         if (got != r.back()) fail("C01", "pop_back_val returned " + std::to_string(got) + " expected " + std::to_string(r.back()));
         r.pop_back();
         res = "val:" + std::to_string(got);
+#endif
       } else if (op == "clear") {
         NEED_ALIVE(a);
         insertPoint = 0;
@@ -590,6 +599,11 @@ struct Driver {
         v(a).shrink_to_fit();
         if (Cfg::flavour == kSV && sz <= N) tainted[a] = false;
       } else if (op == "append_n") {
+#ifdef VF_NO_EXTRAS
+        skipped = true;
+        res = "skip:noext";
+        goto done;
+#else
         NEED_ALIVE(a);
         long n = I(2);
         NEED(FITS(n));
@@ -598,7 +612,13 @@ struct Driver {
         arm();
         v(a).append(static_cast<typename V::size_type>(n));
         r.resize(r.size() + static_cast<size_t>(n));
+#endif
       } else if (op == "append_nv") {
+#ifdef VF_NO_EXTRAS
+        skipped = true;
+        res = "skip:noext";
+        goto done;
+#else
         NEED_ALIVE(a);
         long n = I(2);
         Arg g = parseArg(S(3));
@@ -611,7 +631,13 @@ struct Driver {
         arm();
         v(a).append(static_cast<typename V::size_type>(n), refArg);
         r.insert(r.end(), static_cast<size_t>(n), val);
+#endif
       } else if (op == "append_range") {
+#ifdef VF_NO_EXTRAS
+        skipped = true;
+        res = "skip:noext";
+        goto done;
+#else
         NEED_ALIVE(a);
         srcI = parseInts(S(3));
         strongOp = true;
@@ -630,6 +656,7 @@ struct Driver {
           v(a).append(srcI.begin(), srcI.end());
         }
         r.insert(r.end(), srcI.begin(), srcI.end());
+#endif
       } else if (op == "copy_assign") {
         int b = static_cast<int>(I(2));
         NEED(b >= 0 && b < K);
@@ -668,6 +695,11 @@ struct Driver {
         std::swap(ref[a], ref[b]);
         std::swap(tainted[a], tainted[b]);
       } else if (op == "swap2") {
+#ifdef VF_NO_EXTRAS
+        skipped = true;
+        res = "skip:noext";
+        goto done;
+#else
         int b = static_cast<int>(I(2));
         NEED(b >= 0 && b < K && b != a);
         NEED_ALIVE(a);
@@ -681,6 +713,7 @@ struct Driver {
         bool ta = tainted[a], tb = tainted[b];
         tainted[a] = ta || tb || static_cast<long>(ref[a].size()) > N;
         tainted[b] = ta || tb || static_cast<long>(ref[b].size()) > N;
+#endif
       } else if (op == "at") {
         NEED_ALIVE(a);
         long i = I(2);
